@@ -25,6 +25,7 @@ int run_root_race(const vf::Args&);
 int run_preempt(const vf::Args&);
 int run_parent_race(const vf::Args&);
 int run_preempt_writer(const vf::Args&);
+int run_unlink_race(const vf::Args&);
 
 int main(int argc, char** argv) {
     google::InitGoogleLogging(argv[0]);
@@ -90,6 +91,7 @@ int main(int argc, char** argv) {
     if (mode == "preempt") { return run_preempt(args); }
     if (mode == "parent_race") { return run_parent_race(args); }
     if (mode == "preempt_writer") { return run_preempt_writer(args); }
+    if (mode == "unlink_race") { return run_unlink_race(args); }
     fprintf(stderr, "unknown --mode %s\n", mode.c_str());
     return 2;
 }
